@@ -457,3 +457,31 @@ Proof.
   unfold pin_at, at_time. cbn [firstn state_after init s_core]. intros H.
   unfold core_init in H. apply nth_error_In, repeat_spec in H. subst ps. split; reflexivity.
 Qed.
+
+(* ------------------------------------------------------------------ glue: the observable trace *)
+
+(* cycle t of the observable trace is `out` of the state before cycle t *)
+Lemma run_nth_gen c : forall bs s t b, nth_error bs t = Some b ->
+  nth_error (run c s bs) t = Some (out c (state_after c s (firstn t bs)) b).
+Proof.
+  induction bs as [|x bs IH]; intros s t b H.
+  - destruct t; discriminate.
+  - destruct t as [|t]; simpl in *.
+    + injection H as ->. reflexivity.
+    + apply IH. exact H.
+Qed.
+
+Theorem run_nth c bs t b : nth_error bs t = Some b ->
+  nth_error (run c (init c) bs) t = Some (out c (at_time c bs t) b).
+Proof. apply run_nth_gen. Qed.
+
+(* the mode table in terms of trace positions: what pin j shows in cycle t is the documented function of its
+   mode and output bit in that cycle, and its alt_mode bit is up iff that mode is ALTERNATE *)
+Theorem periph_mode_table_at c bs t b j ps : pin_at c bs t j = Some ps ->
+  nth_error (o_pins (out c (at_time c bs t) b)) j = Some (documented (ps_mode ps) (ps_out ps)) /\
+  (po_alt (documented (ps_mode ps) (ps_out ps)) = true <-> ps_mode ps = 3).
+Proof.
+  unfold pin_at, at_time. intros H.
+  destruct (periph_mode_table c (firstn t bs) b j ps H) as (Hr & Ho).
+  split; [exact Ho|apply alt_iff, Hr].
+Qed.
